@@ -386,8 +386,37 @@ def _check(mod, ctx, args):
         ctx.search_boost = True
     else:
         ctx.search_boost = False
-    mod.run(ctx)
+    try:
+        mod.run(ctx)
+    except DriverError:
+        raise
+    except BINDING_ERRORS:
+        # the harness can no longer drive the implementation (an attribute, import or signature it binds to is
+        # gone): the correspondence is broken - not an infrastructure error, and not by itself a violation
+        import traceback
+        ctx.broke("correspondence harness (cannot drive the implementation)", traceback.format_exc())
     return _finish(mod, ctx, args, axioms, obligations, discharged, cmds, build_log)
+
+
+BINDING_ERRORS = (AttributeError, ImportError, TypeError, NameError)
+
+
+def unbound(prop, argv, tb):
+    """The harness module could not even be imported against the current source (it binds to something the source
+    no longer has).  Report it as a broken correspondence with no failing input: exit 1, replay names what broke."""
+    import argparse
+    import types
+    ap = argparse.ArgumentParser()
+    ap.add_argument("--tier", default=os.environ.get("VERIF_TIER", "quick"))
+    ap.add_argument("--replay", default=None)
+    ap.add_argument("--seed", type=int, default=int(os.environ.get("VERIF_SEED", "0") or 0))
+    ap.add_argument("--no-lean", action="store_true")
+    args = ap.parse_args(argv)
+    mod = types.SimpleNamespace(PROP=prop, LEAN_TARGETS=[], RULE="(the harness could not be bound to the source)",
+                                TRUSTED=[], ASSUMPTIONS=[])
+    ctx = Ctx(prop, args.tier, args.seed, args.replay)
+    ctx.broke("correspondence harness (cannot be bound to the implementation)", tb)
+    return _finish(mod, ctx, args, {}, 0, 0, [], "")
 
 
 def _finish(mod, ctx, args, axioms, obligations, discharged, cmds, build_log):
